@@ -144,6 +144,35 @@ def _body_first_line(r):
     return r['report']['lines'][1] - r['text'].count('\n')
 
 
+def _run_cbmc(name, ccmd, tmo, outj):
+    rc, _, se, wall = run(ccmd, tmo, out=outj)
+    if rc not in (0, 10):
+        tail = open(outj, errors='replace').read()[-3000:]
+        raise Undecided("unit %s: cbmc exit %d\n%s\n%s" % (name, rc, se[-2000:], tail))
+    try:
+        data = json.load(open(outj))
+    except Exception as ex:
+        raise Undecided("unit %s: cbmc output is not JSON (%s)" % (name, ex))
+    results = None
+    solver_s = 0.0
+    msgs = []
+    for e in data:
+        if 'result' in e:
+            results = e['result']
+        mt = e.get('messageText')
+        if mt:
+            m = re.search(r'Runtime decision procedure: ([0-9.e+-]+)s', mt)
+            if m:
+                solver_s += float(m.group(1))
+            if e.get('messageType') in ('ERROR',):
+                msgs.append(mt)
+            if 'ignoring' in mt:
+                raise Undecided("unit %s: cbmc says %r (quantifier dropped?)" % (name, mt))
+    if results is None:
+        raise Undecided("unit %s: no result block in cbmc output; errors: %s" % (name, msgs[-3:]))
+    return results, solver_s, wall
+
+
 # ----------------------------------------------------------------------------
 # one CBMC job
 # ----------------------------------------------------------------------------
@@ -179,7 +208,7 @@ def cbmc_job(unit, cfile, outdir, tag, defines, tier, fn=None):
     off = set(DEFAULT_OFF) - set(unit.get('flags_on', []))
     off |= set(unit.get('flags_off', []))
     flags = [f for f in CHECK_FLAGS if f not in off]
-    ccmd = ['cbmc', b, '--json-ui', '--trace'] + flags + unit.get('cbmc', [])
+    ccmd = ['cbmc', b, '--json-ui', '--trace', '--verbosity', '8'] + flags + unit.get('cbmc', [])
     if tier == 'thorough' and unit.get('thorough_cbmc'):
         ccmd += unit['thorough_cbmc']
     if unit.get('unwind') is not None:
@@ -189,32 +218,16 @@ def cbmc_job(unit, cfile, outdir, tag, defines, tier, fn=None):
     if unit.get('arch32'):
         ccmd.append('--32')
     outj = os.path.join(outdir, '%s.%s.json' % (name, tag))
-    t0 = time.time()
-    rc, _, se, wall = run(ccmd, tmo, out=outj)
-    if rc not in (0, 10):
-        tail = open(outj, errors='replace').read()[-3000:]
-        raise Undecided("unit %s: cbmc exit %d\n%s\n%s" % (name, rc, se[-2000:], tail))
-    try:
-        data = json.load(open(outj))
-    except Exception as ex:
-        raise Undecided("unit %s: cbmc output is not JSON (%s)" % (name, ex))
-    results = None
-    solver_s = 0.0
-    msgs = []
-    for e in data:
-        if 'result' in e:
-            results = e['result']
-        mt = e.get('messageText')
-        if mt:
-            m = re.search(r'Runtime (?:Solver|decision procedure): ([0-9.]+)s', mt)
-            if m:
-                solver_s += float(m.group(1))
-            if e.get('messageType') in ('ERROR',):
-                msgs.append(mt)
-            if 'ignoring' in mt:
-                raise Undecided("unit %s: cbmc says %r (quantifier dropped?)" % (name, mt))
-    if results is None:
-        raise Undecided("unit %s: no result block in cbmc output; errors: %s" % (name, msgs[-3:]))
+    results, solver_s, wall = _run_cbmc(name, ccmd, tmo, outj)
+    ign = [re.compile(p) for p in unit.get('ignore', [])]
+    if ign and any(r['status'] == 'FAILURE' and any(p.search(r.get('description', '')) for p in ign) for r in results):
+        # an out-of-scope obligation failed: CBMC leaves everything behind it UNKNOWN.  Re-run with exactly the
+        # in-scope properties selected, so that each of them is decided on its own.
+        keep = [r['property'] for r in results if not any(p.search(r.get('description', '')) for p in ign)]
+        ccmd = ccmd + sum([['--property', k] for k in keep], [])
+        results, s2, w2 = _run_cbmc(name, ccmd, tmo, outj)
+        solver_s += s2
+        wall += w2
     return dict(results=results, solver_s=solver_s, wall=wall, cmd=' '.join(ccmd), fn=fn, name=name,
                 instrument=' '.join(cmd), json=outj, flags_off=sorted(off))
 
@@ -249,12 +262,16 @@ def _val(v):
     return None
 
 
-def classify(results):
-    """split CBMC properties into canaries, obligations"""
+def classify(results, unit=None):
+    """split CBMC properties into canaries, obligations; obligations a unit declares out of scope
+    (regex on the description, each with a reason in the spec) are dropped and counted separately"""
     can, obl = [], []
+    ign = [re.compile(p) for p in (unit or {}).get('ignore', [])]
     for r in results:
         if 'VACUITY_CANARY' in r.get('description', ''):
             can.append(r)
+        elif any(p.search(r.get('description', '')) for p in ign):
+            continue
         else:
             obl.append(r)
     return can, obl
@@ -280,9 +297,9 @@ def check_unit(pid, unit, tier, known):
                  and k.get('function', fn) == fn]
         jobA = cbmc_job(unit, cfile, outdir, 'A', [], tier, fn)
         res['jobs'].append(jobA)
-        canA, oblA = classify(jobA['results'])
+        canA, oblA = classify(jobA['results'], unit)
         _sanity(unit, jobA, canA, oblA, fn)
-        failsA = [r for r in oblA if r['status'] != 'SUCCESS']
+        failsA = [r for r in oblA if r['status'] == 'FAILURE']
         final = jobA
         if opens:
             matched = set()
@@ -300,16 +317,16 @@ def check_unit(pid, unit, tier, known):
             excl = ' && '.join('!(%s)' % k['witness_class'] for k in opens)
             jobB = cbmc_job(unit, cfile, outdir, 'B', ['KNOWN_EXCLUDE=(%s)' % excl], tier, fn)
             res['jobs'].append(jobB)
-            canB, oblB = classify(jobB['results'])
+            canB, oblB = classify(jobB['results'], unit)
             _sanity(unit, jobB, canB, oblB, fn)
             # failures of A that vanish under the exclusion belong to the known witness class; whatever still
             # fails with the class excluded is a different violation
-            res['violations'] += [(r, jobB) for r in oblB if r['status'] != 'SUCCESS']
+            res['violations'] += [(r, jobB) for r in oblB if r['status'] == 'FAILURE']
             final = jobB
             res['excluded_classes'] += [k['id'] + ': ' + k['witness_class'] for k in opens]
         else:
             res['violations'] += [(r, jobA) for r in failsA]
-        can, obl = classify(final['results'])
+        can, obl = classify(final['results'], unit)
         res['obligations'] += len(obl)
         res['discharged'] += sum(1 for r in obl if r['status'] == 'SUCCESS')
         res['contract_obligations'] += sum(1 for r in obl if is_contract_obligation(r))
@@ -339,8 +356,11 @@ def _sanity(unit, job, can, obl, fn):
     if fn and not unit.get('no_ensures'):
         if not any(r['property'].startswith(fn + '.postcondition') for r in obl):
             raise Undecided("unit %s: no ensures obligation generated for %s" % (name, fn))
+    nfail = sum(1 for r in obl if r['status'] == 'FAILURE')
     for r in obl:
-        if r['status'] not in ('SUCCESS', 'FAILURE'):
+        # CBMC reports UNKNOWN for properties it did not decide because another property on the way failed;
+        # with no failure at all an undecided property is an error of the run
+        if r['status'] not in ('SUCCESS', 'FAILURE') and not nfail:
             raise Undecided("unit %s: obligation %s has status %s" % (name, r['property'], r['status']))
 
 
@@ -489,7 +509,7 @@ def write_evidence(pid, mod, tier, seed, results, errors, nviol, wall, known):
                          backend=u.get('backend', 'cbmc 6.11 SAT (minisat2 default)'),
                          solver_s=round(sum(j['solver_s'] for j in r['jobs']), 3), wall_s=round(sum(j['wall'] for j in r['jobs']), 2),
                          loop_contracts=r['nloops'], checks_switched_off=job['flags_off'],
-                         unwind=u.get('unwind'),
+                         unwind=u.get('unwind'), ignored_obligation_classes=u.get('ignore', []),
                          extracted=[dict(id=e['id'], file=e['file'], lines=e.get('lines'), sha256=e['sha256'][:16],
                                          rules_fired=e['rules_fired']) for e in r['extract']],
                          excluded_known_classes=r.get('excluded_classes', [])))
